@@ -531,6 +531,9 @@ func ctrlAlphabet() []ctrlCall {
 		{"Get(head)", off("get", func(st *ctrlState) int64 { return st.headMid })},
 		{"Get(newest)", off("get", func(st *ctrlState) int64 { return klevdb.OffsetNewest })},
 		{"GetByKey(b)", func(cr *concRun, st *ctrlState) *cOp { return &cOp{Kind: "getbykey", Key: []byte("b")} }},
+		{"GetByTime(first)", func(cr *concRun, st *ctrlState) *cOp {
+			return &cOp{Kind: "getbytime", T: 1}
+		}},
 		{"GetByTime(now)", func(cr *concRun, st *ctrlState) *cOp {
 			return &cOp{Kind: "getbytime", T: time.Now().UnixMicro() - 500}
 		}},
@@ -590,6 +593,10 @@ func ctrlPrimaries(alpha []ctrlCall) []ctrlPrimary {
 		p("Delete(reader-all)", "below", 1, "delete.afterFind", "delete.afterRewrite", "delete.reader.beforeSwap"),
 		p("Consume(reader)", "gc", 1, "reader.getIndex.beforeLoad", "reader.afterIndex", "reader.getMessages.beforeLoad", "reader.afterGetMessages"),
 		p("Consume(head)", "below", 1, "reader.afterIndex", "reader.afterGetMessages"),
+		p("Get(reader)", "gc", 1, "reader.getIndex.beforeLoad", "reader.getMessages.beforeLoad"),
+		p("GetByKey(b)", "gc", 1, "reader.getIndex.beforeLoad", "reader.getMessages.beforeLoad"),
+		p("GetByTime(first)", "gc", 1, "reader.getIndex.beforeLoad", "reader.getMessages.beforeLoad"),
+		p("ConsumeByKey(a)", "gc", 1, "reader.getIndex.beforeLoad", "reader.getMessages.beforeLoad"),
 		p("GC", "below", 1, "reader.gc.afterCloseIndex"),
 		p("ConsumeByKey(a,next)", "below", 1, "reader.consumeByKey.afterKeys"),
 		p("ConsumeByKey(zz,head)", "below", 1, "reader.consumeByKey.afterKeys"),
